@@ -1573,6 +1573,11 @@ bool MEDDLY::dd_edge::getElemInt(long index, minterm &m) const
 
     if (index < 0) return false;
 
+    //
+    // The empty set is a terminal edge: no element has any index
+    //
+    if (fp->isTerminalNode(node)) return false;
+
     node_handle p = node;
     unpacked_node* U = unpacked_node::New(fp, SPARSE_ONLY);
     for (unsigned k = fp->getNumVariables(); k; --k) {
@@ -1629,6 +1634,11 @@ bool MEDDLY::dd_edge::getElemLong(long index, minterm &m) const
     MEDDLY_DCASSERT(fp->getEdgeType() == edge_type::LONG);
 
     if (index < 0) return false;
+
+    //
+    // The empty set is a terminal edge: no element has any index
+    //
+    if (fp->isTerminalNode(node)) return false;
 
     node_handle p = node;
     unpacked_node* U = unpacked_node::New(fp, SPARSE_ONLY);
